@@ -4,24 +4,25 @@ write — during any subsequent operation on other files, directories or the vol
 shows that file with at least the flushed length and exactly the flushed contents, until the file itself is next
 modified, truncated or deleted."
 
-Property theorems only; proofs in `Sdmmc.Lemmas.Survive*` (`SurviveFrame`: crash points, prefix-closed licences, the
-frame at every crash point; `SurviveFile`: first hit from clean tail + distinct names, mounting across the frame;
-`SurviveRead`: the fresh reader; `SurviveClose`: what flush / close leave on the medium, the independent reader;
-`SurviveMain`; `SurviveAbs`: the file slot in the abstract file system of `Props/C01Fs`; `SurviveNamed`, `SurviveNamed2`:
-every licence of a call that does not target the file is `NotNamed` for it; `SurviveTrack`, `SurviveTrack2`,
-`SurviveStep`: one call; `SurviveRoot`: the root directory of a crashed medium and the reader; `SurviveFinal`: crash
-points, histories, the syntactic criteria; `SurviveEstablish`: `close_file` establishes the invariant) on top of
-`Props/C04Hist.lean` (`VolInvM`, `LicenceFor`, `RunLicensed`, `NotNamed`, `Covers`), `Props/C03Inv.lean` (`VolInv`,
-`CoveredAllRun`), `Props/C10Inv.lean` (`VolInvC`, `CrashInv` at every crash point, mounting), `Props/C01Fs.lean` (the
-abstract file system) and `Props/C02Reopen.lean` (the reader).
+Property theorems only (non-vacuity: `Props/C09HistEx.lean`); proofs in `Sdmmc.Lemmas.Survive*` (`SurviveFrame`: crash
+points, prefix-closed licences, the frame at every crash point; `SurviveFile`: first hit from clean tail + distinct names,
+mounting across the frame; `SurviveRead`: the fresh reader of the root directory; `SurviveClose`: what flush / close leave
+on the medium, the independent reader; `SurviveMain`; `SurviveAbs`: the file slot in the abstract file system of
+`Props/C01Fs`; `SurviveNamed`, `SurviveNamed2`: every licence of a call that does not target the file is `NotNamed` for it;
+`SurviveDir`, `SurviveDir2`: directory chains only grow, sub-directory entries are never rewritten, paths persist;
+`SurviveFlush`: a repeated flush / close stores its entry with one block write; `SurviveTrack`, `SurviveTrack2`,
+`SurviveStep`: one call; `SurviveRoot`, `SurviveWalk`, `SurviveWalk2`: the fresh reader walking a path on a crashed medium;
+`SurviveFinal`: crash points, histories, the syntactic criteria; `SurviveEstablish`: `close_file` / `flush_file` establish
+the invariant) on top of `Props/C04Hist.lean` (`LicenceFor`, `RunLicensed`, `NotNamed`, `Covers`), `Props/C03Inv.lean`
+(`VolInv`, `CoveredAllRun`), `Props/C10Inv.lean` (`VolInvC`, `CrashInv` at every crash point, mounting),
+`Props/C01Fs.lean` (the abstract file system) and `Props/C02Reopen.lean` (the reader).
 
 CRASH POINTS.  `HistCrash s ops dk` (`histCrash_iff`): `dk` is the medium of the state some call `ops[j]` of the
 history is issued in with the first `k` device writes of that call applied (`Spec.crashDisk`) — every medium a power
 cut during the history can leave (`k = 0`: a call boundary; `k ≥` the number of writes: the boundary after the call).
 
-STATUS: PROVED for files of the ROOT directory, FAT16 and FAT32, after `close_file`, at EVERY crash point, with a
-syntactic criterion.  Residue (stated plainly below): sub-directory files get (a) but not (b), (c); the `flush_file`
-case keeps the semantic hypothesis.
+STATUS: PROVED — files of ANY directory (root or sub-directory, any depth), FAT16 and FAT32, after `close_file` AND
+after `flush_file` with the handle left open, at EVERY crash point, with a syntactic criterion.
 
 WHAT IS PROVED.
 1. `licensed_prefix_closed`, `step_crash_licensed`, `crash_frame`, `history_crash_frame`: the first `k` writes of a
@@ -31,49 +32,57 @@ WHAT IS PROVED.
    with the SEMANTIC hypothesis "no licence names the file"; (b), (c) only at call boundaries of FAT16 root files).
 4. `spec_reader_survives` (semantic hypothesis), `spec_reader_survives_syntactic` (criterion below).
 5. THE FULL STATEMENT.
-   * `Kept v0 e cs h s gh` (`kept_def`): `s` satisfies the invariant (FAT copies identical), its medium shows the flushed
-     entry `e` with chain `cs`, the slot is a file object of directory `h`, and no open file at the slot has unflushed
-     changes.  `close_establishes_kept`: a successful `close_file` of a handle that was written to leaves such a state,
-     with no handle at the slot.
+   * `Kept v0 e cs ys h s gh` (`kept_def`): `s` satisfies `VolInvC`, its medium shows the flushed entry `e` with chain
+     `cs`, the slot is a file object of directory `h`, the sub-directory entries `ys` lead from the root directory to `h`
+     (`PathOn`, `pathOn_def`; `[]` for the root directory), and every open file at the slot has no unflushed changes OR
+     still has `e` as its record.  `close_establishes_kept`: a successful `close_file` of a handle that was written to
+     leaves such a state, with no handle at the slot; `flush_establishes_kept`: so does a successful `flush_file` (of a
+     file that owns a cluster), the handle staying open with the flushed record.
    * The criterion.  `Targets s h N pos op` (`targets_def`): `op` is `open_file_in_dir` of (a spelling of) the name `N`
      through a handle of directory `h` in a TRUNCATING mode, or `delete_file_in_dir` of it, or `write` through a handle
      (not a read-only one) of an open file at the slot.  `Untouched` (`untouched_def`): no call of the history targets
      the file in the state it is issued in — this is "until the file itself is next modified, truncated or deleted".
-     Opening the file `ReadOnly` — or even for appending, as long as nothing is written —, reading it, and everything
-     that happens to other files, directories and the volume is allowed.
+     Opening the file `ReadOnly` — or even for appending, as long as nothing is written —, reading it, flushing or
+     closing a handle of it again, and everything that happens to other files, directories and the volume is allowed.
      `untouched_of_never_opened`: if only read-only handles sit at the slot (none after a close) it suffices that no
      call opens the name in that directory in a mode other than `ReadOnly` or deletes it (`NeverOpened`);
      `never_opened_of_never_names`: for which it suffices that the LIST OF CALLS contains no `open_file_in_dir` in a
      mode other than `ReadOnly` and no `delete_file_in_dir` of any spelling of the name (`NeverNames`, purely syntactic).
-   * `notNamed_of_syntactic` (every directory, FAT16/FAT32): from `Kept`, along a covered `Untouched` history, EVERY
-     licence of the history is `NotNamed` for the file.  (Needed for it, and added to `LicenceFor` in
-     `Lemmas/WriteSetInv.lean`: a created entry takes a FREE slot, the clusters a `write` appends were in no chain,
-     `delete` / truncate name a CLOSED object, `flush` / `close` write only when the handle was written to, `write`
-     writes only through a handle that is not read-only, the cluster a full directory grows by is free.)
-   * `flushed_file_intact` — (a) at EVERY crash point for a file of ANY directory (root or sub-directory).
-   * **`flushed_file_survives`** — root-directory files, FAT16 and FAT32, EVERY crash point: (a), (b) first hit in the
-     root directory of the crashed medium (on FAT32 the root chain of the crashed medium continues the one before),
-     (c) the crashed medium mounts and ANY fresh manager mounts, opens the root directory, opens the file by any
-     spelling of its name and reads exactly the flushed contents, length included.  Uses `Props.C10Inv`: every crash
-     point is crash-consistent (`CrashInv`: clean tails and distinct names of the root directory of the crashed medium)
-     and mounts.
-   * **`closed_file_survives`** — the same from the `close_file` call itself with the purely syntactic `NeverNames`.
+   * `notNamed_of_syntactic` (every directory): from `Kept` with no unflushed handle at the slot, along a covered
+     `Untouched` history, EVERY licence of the history is `NotNamed` for the file.  (Needed for it, and added to
+     `LicenceFor` in `Lemmas/WriteSetInv.lean`: a created entry takes a FREE slot, the clusters a `write` appends were in
+     no chain, `delete` / truncate name a CLOSED object, `flush` / `close` write only when the handle — the first record
+     with that handle value — was written to, `write` writes only through a handle that is not read-only, the cluster a
+     full directory grows by is free.)
+   * `flushed_file_intact` — (a) at EVERY crash point.
+   * **`flushed_file_survives`** — EVERY crash point `dk`: (a); (b) `dk` is crash-consistent (`CrashInv`, `Props.C10Inv`)
+     for a record of its tree in which `ys` still lead from the root directory to `h` (directory chains only grow,
+     sub-directory entries are never rewritten), and the slot is the first hit for the file's name in directory `h` of
+     `dk`; (c) `dk` mounts and ANY fresh manager mounts, opens the root directory, walks the path with `open_dir`
+     (`openPath`, any spellings of the names: `Spells`), opens the file by any spelling of its name and reads exactly
+     the flushed contents, length included (`FreshReads`).
+   * **`closed_file_survives`** — the same from the `close_file` call itself with the purely syntactic `NeverNames`;
+     **`flushed_open_file_survives`** — from the `flush_file` call, the handle left open, with `Untouched`.
    HYPOTHESES, all explicit: `VolInvC` at the start (invariant of API histories, identical FAT copies, `RawOK` —
    `Props.C10Inv`); covered history (`CoveredAllRun`: by `Props/C03All` only the `open_volume` clause is a
-   restriction); the medium mounts at the start; the entry is `Storable` (provided by `flushed_entry_facts`);
-   `ProperEnds` only for the independent reader on FAT32 (as in `Props/C02Reopen`).
+   restriction); the medium mounts at the start; the entry is `Storable` (provided by `flushed_entry_facts`); the
+   names of the sub-directory entries on the way are not `.` / `..`; for `flush_file`: the file owns a cluster
+   (`f.entry.cluster ≠ 0` — the abstract file system does not see first clusters, so that the record of a handle that
+   never got a cluster cannot be followed; in the model a handle that was written to lacks a cluster only when the
+   first `write` to an empty file failed for lack of space: `write` marks the handle before it allocates); `ProperEnds` only for the independent reader on FAT32 (as in `Props/C02Reopen`).
+
+HOW THE `flush_file` CASE WORKS.  The crate never clears `dirty`: a handle that was written to stays dirty after
+`flush_file`, and a later `flush_file` / `close_file` of it stores its entry AGAIN.  `Kept` therefore allows a dirty handle
+at the slot whose record is still the flushed entry; such a call (`Lemmas.Survive.Reflush`) stores the same 32 bytes with
+ONE block write (`Lemmas.Survive.reflush_atomic`): at each of its crash points the slot's block is the old or the new
+block, which carry the same slot bytes.  That the record is still the flushed entry is followed through the abstract
+file system (pending entry unchanged unless written through) plus `RawOK` (first cluster).
 
 WHAT IS NOT PROVED (residue).
-* (b), (c) for files of SUB-DIRECTORIES: (a) holds for them at every crash point (`flushed_file_intact`), and the
-  machinery of one call (`Lemmas.Survive.kept_step`) is directory-generic, but "first hit" and the reader at crash points
-  strictly inside a call need the sub-directory to be a directory of the crashed medium's ghost (`CrashInv` is stated
-  with `∃ gh'`, and says nothing of which sub-directories it has) and the path from the root to be walked with
-  `open_dir`; neither is done.
-* The `flush_file` case with the handle left open: the crate never clears `dirty` (a handle that was written to stays
-  dirty after `flush_file`), so a later `flush_file` / `close_file` of the same handle stores the entry AGAIN.  The bytes
-  are the same if nothing was written in between, but the licences say only which slot a call may change, not what it
-  writes there; `Kept` therefore asks for a clean (or no) handle at the slot, which a successful `close_file` provides and
-  `flush_file` does not.  For `flush_file` the semantic form `flushed_file_survives_partial` remains.
+* A purely syntactic criterion for the `flush_file` case (the handle left open): `flushed_open_file_survives` asks for
+  `Untouched`, which speaks of the state each call is issued in ("no `write` through a handle at the slot"); handle values
+  are only known at run time.
+* The depth of the path is bounded by the reader's directory-handle table (`ys.length + 1 ≤ maxDirs`), as in the crate.
 -/
 import Sdmmc.Lemmas.SurviveEstablish
 import Sdmmc.Props.C04Hist
@@ -88,7 +97,7 @@ open Sdmmc.Spec hiding run step NoFault Coherent
 open Sdmmc.Props.C03Inv (Covered CoveredAll CoveredAllRun)
 open Sdmmc.Props.C04Hist (VolInvM)
 open Sdmmc.Lemmas.WriteSetInv (LicenceFor RunLicensed Covers NotNamed)
-open Sdmmc.Lemmas.Survive (HistCrash FlushedOn Kept Obj Targets Untouched Modifies NeverOpened NeverNames slotOf)
+open Sdmmc.Lemmas.Survive (HistCrash FlushedOn Kept Obj Targets Untouched Modifies NeverOpened NeverNames slotOf PathOn Spells openPath)
 open Sdmmc.Lemmas.ReadRefines (MgrOK)
 open Sdmmc.Lemmas.VolTree (fkey spos)
 
@@ -288,19 +297,47 @@ theorem spec_reader_survives (v0 : FatVolume) (s1 : Mgr) (gh1 : Ghost) (hI : Vol
 
 /-! ### 5. The syntactic criterion and the full statement -/
 
-/-- `Kept v0 e cs h s gh`: the state `s` (invariant with ghost `gh`, FAT copies identical, geometry of `v0`) shows the
-flushed file — its slot holds the serialised entry `e`, `cs` is its chain —, the slot (`slotOf`: position and 32-byte
-image) is a file object of directory number `h` (`0` = root), and no open file that sits at it has unflushed
-changes. -/
-theorem kept_def (v0 : FatVolume) (e : DirEntry) (cs : List Nat) (h : Nat) (s : Mgr) (gh : Ghost) :
-    Kept v0 e cs h s gh ↔
-      VolInv s gh ∧ Mirror gh.vol s.dev.disk ∧ SameGeom v0 gh.vol ∧ FlushedOn v0 s.dev.disk e cs ∧
+/-- `PathOn ft dirs slots p ys h`: the sub-directory entries `ys` lead from directory `p` to directory `h` — the first
+is an object of `p` that is a directory entry, each next one an object of the sub-directory the previous one designates
+(`sCluster`), the last one designates `h`; `[]` leads from `p` to `p`. -/
+theorem pathOn_def (ft : FatType) (dirs : List (Nat × Nat)) (slots : Nat → List Slot) (p h : Nat) :
+    (PathOn ft dirs slots p [] h ↔ p ∈ dirIds dirs ∧ h = p) ∧
+    ∀ y ys, PathOn ft dirs slots p (y :: ys) h ↔
+      p ∈ dirIds dirs ∧ y ∈ objects p (slots p) ∧ isDirE y = true ∧ PathOn ft dirs slots (sCluster ft y) ys h := by
+  refine ⟨⟨fun hP => ?_, fun ⟨h1, h2⟩ => by subst h2; exact .nil _ h1⟩, fun y ys => ⟨fun hP => ?_, fun ⟨h1, h2, h3, h4⟩ => .cons p y ys h h1 h2 h3 h4⟩⟩
+  · cases hP with
+    | nil _ hp => exact ⟨hp, rfl⟩
+  · cases hP with
+    | cons _ _ _ _ hp hy hd rest => exact ⟨hp, hy, hd, rest⟩
+
+/-- `openPath d names`: `open_dir` along the names, from the handle `d`; `Spells names ys`: the names are spellings of
+the stored names of the entries `ys`, one each. -/
+theorem openPath_def (d : Nat) : openPath d [] = pure d ∧
+    ∀ n ns, openPath d (n :: ns) = (openDir d n >>= fun d' => openPath d' ns) := ⟨rfl, fun _ _ => rfl⟩
+
+theorem spells_def : (Spells [] [] ↔ True) ∧
+    (∀ n ns y ys, Spells (n :: ns) (y :: ys) ↔ Sfn.createFromStr n = .ok (sName y) ∧ Spells ns ys) ∧
+    (∀ n ns, ¬ Spells (n :: ns) []) ∧ (∀ y ys, ¬ Spells [] (y :: ys)) :=
+  ⟨Iff.rfl, fun _ _ _ _ => Iff.rfl, fun _ _ h => h, fun _ _ h => h⟩
+
+/-- `Kept v0 e cs ys h s gh`: the state `s` satisfies the invariant of API histories with ghost `gh`, identical FAT
+copies and `RawOK` (`VolInvC` of `Props.C10Inv`), `gh.vol` has the geometry of `v0`; its medium shows the flushed file —
+the slot holds the serialised entry `e`, `cs` is its chain —; the slot (position and 32-byte image) is a file object of
+directory number `h` (`0` = root); every open file that sits at the slot has no unflushed changes or still has `e` as
+its record (and then the file owns a cluster); and the sub-directory entries `ys` (none of them named `.` or `..`) lead
+from the root directory to `h`. -/
+theorem kept_def (v0 : FatVolume) (e : DirEntry) (cs : List Nat) (ys : List Slot) (h : Nat) (s : Mgr) (gh : Ghost) :
+    Kept v0 e cs ys h s gh ↔
+      VolInvC s gh ∧ SameGeom v0 gh.vol ∧ FlushedOn v0 s.dev.disk e cs ∧
       h ∈ dirIds gh.dirs ∧
       ((e.entryBlock, e.entryOffset, e.serialize v0.fatType) : Slot) ∈ objects h (dirSlots gh.vol s.dev.disk gh.G h) ∧
       isDirE (e.entryBlock, e.entryOffset, e.serialize v0.fatType) = false ∧
-      ∀ f, f ∈ s.files → (f.entry.entryBlock, f.entry.entryOffset) = (e.entryBlock, e.entryOffset) → f.dirty = false :=
-  ⟨fun hK => ⟨hK.inv, hK.mirror, hK.geom, hK.flushed, hK.obj.dir, hK.obj.mem, hK.obj.file, hK.obj.quiet⟩,
-   fun ⟨a, b, c, d, e1, e2, e3, e4⟩ => ⟨a, b, c, d, ⟨e1, e2, e3, e4⟩⟩⟩
+      (∀ f, f ∈ s.files → (f.entry.entryBlock, f.entry.entryOffset) = (e.entryBlock, e.entryOffset) →
+        f.dirty = false ∨ (f.entry = e ∧ e.cluster ≠ 0)) ∧
+      PathOn gh.vol.fatType gh.dirs (dirSlots gh.vol s.dev.disk gh.G) 0 ys h ∧
+      ∀ y, y ∈ ys → sName y ≠ Sfn.thisDir ∧ sName y ≠ Sfn.parentDir :=
+  ⟨fun hK => ⟨⟨hK.inv, hK.mirror, hK.raw⟩, hK.geom, hK.flushed, hK.dir, hK.mem, hK.file, hK.synced, hK.path, hK.pathNames⟩,
+   fun ⟨a, c, d, e1, e2, e3, e4, e5, e6⟩ => ⟨a.inv, a.mirror, a.raw, c, d, e1, e2, e3, e4, e5, e6⟩⟩
 
 /-- `Targets s h N pos op`: the call `op`, issued in state `s`, targets the file named `N` of directory `h` whose slot
 sits at `pos`: `open_file_in_dir` of a spelling of `N` through a handle of directory `h` in a TRUNCATING mode,
@@ -335,33 +372,50 @@ theorem fsCoveredRun_of_coveredAllRun (v0 : FatVolume) : ∀ (s : Mgr) (ops : Li
   | s, op :: ops, h => ⟨C01Fs.fsCovered_of_coveredAll v0 h.1 (fun _ name _ => C03All.name_ok_all name),
       fsCoveredRun_of_coveredAllRun v0 _ ops h.2⟩
 
-/-- **`close_establishes_kept`**: under the invariant (FAT copies identical), `close_file` of a handle that was
-written to answers `Ok`, and the state it leaves shows the flushed file (`Kept`) as an object of the directory `h` the
-file sat in — entry `f.entry`, chain `chainOf gh.G f.entry.cluster` —, with NO handle left at its slot. -/
-theorem close_establishes_kept (v0 : FatVolume) (s : Mgr) (gh : Ghost) (hI : VolInvM s gh) (h0 : SameGeom v0 gh.vol)
+/-- **`close_establishes_kept`**: under `VolInvC`, `close_file` of a handle that was written to answers `Ok`, and the state
+it leaves shows the flushed file (`Kept`) as an object of the directory `h` the file sat in — entry `f.entry`, chain
+`chainOf gh.G f.entry.cluster`, for every path `ys` that led to `h` before the call —, with NO handle left at its slot. -/
+theorem close_establishes_kept (v0 : FatVolume) (s : Mgr) (gh : Ghost) (hI : VolInvC s gh) (h0 : SameGeom v0 gh.vol)
     (hd i : Nat) (f : FileInfo) (hidx : s.files.findIdx? (·.rawFile = hd) = some i) (hf : s.files[i]? = some f)
     (hdirty : f.dirty = true) :
     (step s (.closeFile hd)).2.result = .ok .unit ∧
-    ∃ h gh1, (∃ o, o ∈ objects h (dirSlots gh.vol s.dev.disk gh.G h) ∧ spos o = fkey f) ∧ h ∈ dirIds gh.dirs ∧
-      Kept v0 f.entry (chainOf gh.G f.entry.cluster) h (step s (.closeFile hd)).1 gh1 ∧
-      ∀ g, g ∈ (step s (.closeFile hd)).1.files → fkey g ≠ fkey f :=
-  Lemmas.Survive.close_kept hI.1 hI.2 h0 hidx hf hdirty
+    ∃ h, (∃ o, o ∈ objects h (dirSlots gh.vol s.dev.disk gh.G h) ∧ spos o = fkey f) ∧ h ∈ dirIds gh.dirs ∧
+      ∀ ys, PathOn gh.vol.fatType gh.dirs (dirSlots gh.vol s.dev.disk gh.G) 0 ys h →
+        (∀ y, y ∈ ys → sName y ≠ Sfn.thisDir ∧ sName y ≠ Sfn.parentDir) →
+        ∃ gh1, Kept v0 f.entry (chainOf gh.G f.entry.cluster) ys h (step s (.closeFile hd)).1 gh1 ∧
+          ∀ g, g ∈ (step s (.closeFile hd)).1.files → fkey g ≠ fkey f :=
+  Lemmas.Survive.close_kept hI.inv hI.mirror hI.raw h0 hidx hf hdirty
 
-/-- **`notNamed_of_syntactic`** (every directory, FAT16 and FAT32): from a `Kept` state, the licences of a covered
-history that never targets the file (`Untouched`) are ALL `NotNamed` for the file — creates take free slots, writes go
-to other files' chains and to unused clusters, deletes and truncations name other objects, flushes and closes store
-other files' entries, directories grow by free clusters. -/
-theorem notNamed_of_syntactic (v0 : FatVolume) (e : DirEntry) (cs : List Nat) (h : Nat) (s : Mgr) (gh : Ghost)
-    (hK : Kept v0 e cs h s gh) (hst : Lemmas.Reopen.Storable v0.fatType e) (ops : List Op) (hc : CoveredAllRun v0 s ops)
-    (hu : Untouched h e.name (e.entryBlock, e.entryOffset) s ops) :
+/-- **`flush_establishes_kept`** — the handle is LEFT OPEN: under `VolInvC`, `flush_file` of a handle that was written to,
+of a file that owns a cluster, answers `Ok`, and the state it leaves is `Kept`: the handle (still marked as written to —
+the crate never clears the mark) has the flushed entry as its record, so that a later `flush_file` / `close_file` of it
+stores the same 32 bytes. -/
+theorem flush_establishes_kept (v0 : FatVolume) (s : Mgr) (gh : Ghost) (hI : VolInvC s gh) (h0 : SameGeom v0 gh.vol)
+    (hd i : Nat) (f : FileInfo) (hidx : s.files.findIdx? (·.rawFile = hd) = some i) (hf : s.files[i]? = some f)
+    (hdirty : f.dirty = true) (hcl : f.entry.cluster ≠ 0) :
+    (step s (.flush hd)).2.result = .ok .unit ∧
+    ∃ h, (∃ o, o ∈ objects h (dirSlots gh.vol s.dev.disk gh.G h) ∧ spos o = fkey f) ∧ h ∈ dirIds gh.dirs ∧
+      ∀ ys, PathOn gh.vol.fatType gh.dirs (dirSlots gh.vol s.dev.disk gh.G) 0 ys h →
+        (∀ y, y ∈ ys → sName y ≠ Sfn.thisDir ∧ sName y ≠ Sfn.parentDir) →
+        ∃ gh1, Kept v0 f.entry (chainOf gh.G f.entry.cluster) ys h (step s (.flush hd)).1 gh1 :=
+  Lemmas.Survive.flush_kept hI.inv hI.mirror hI.raw h0 hidx hf hdirty hcl
+
+/-- **`notNamed_of_syntactic`** (every directory, FAT16 and FAT32): from a `Kept` state in which no handle at the slot has
+unflushed changes (e.g. after a close), the licences of a covered history that never targets the file (`Untouched`) are
+ALL `NotNamed` for the file — creates take free slots, writes go to other files' chains and to unused clusters, deletes
+and truncations name other objects, flushes and closes store other files' entries, directories grow by free clusters. -/
+theorem notNamed_of_syntactic (v0 : FatVolume) (e : DirEntry) (cs : List Nat) (ys : List Slot) (h : Nat) (s : Mgr) (gh : Ghost)
+    (hK : Kept v0 e cs ys h s gh) (hst : Lemmas.Reopen.Storable v0.fatType e) (ops : List Op) (hc : CoveredAllRun v0 s ops)
+    (hu : Untouched h e.name (e.entryBlock, e.entryOffset) s ops)
+    (hclean : ∀ f, f ∈ s.files → fkey f = (e.entryBlock, e.entryOffset) → f.dirty = false) :
     ∃ Ls, RunLicensed v0 s ops Ls ∧ ∀ L, L ∈ Ls → NotNamed v0 L e.entryBlock e.entryOffset cs :=
-  Lemmas.Survive.kept_runLicensed hst ops s gh hK (fsCoveredRun_of_coveredAllRun v0 s ops hc) hu
+  Lemmas.Survive.kept_runLicensed hst ops s gh hK (fsCoveredRun_of_coveredAllRun v0 s ops hc) hu hclean
 
 /-- If only read-only handles refer to the file (for instance none: it is closed), a history none of whose calls opens
 the file in a mode other than `ReadOnly` or deletes it (`NeverOpened`: the name, through a handle of the file's
 directory) never targets it. -/
-theorem untouched_of_never_opened (v0 : FatVolume) (e : DirEntry) (cs : List Nat) (h : Nat) (s : Mgr) (gh : Ghost)
-    (hK : Kept v0 e cs h s gh) (hst : Lemmas.Reopen.Storable v0.fatType e) (ops : List Op) (hc : CoveredAllRun v0 s ops)
+theorem untouched_of_never_opened (v0 : FatVolume) (e : DirEntry) (cs : List Nat) (ys : List Slot) (h : Nat) (s : Mgr) (gh : Ghost)
+    (hK : Kept v0 e cs ys h s gh) (hst : Lemmas.Reopen.Storable v0.fatType e) (ops : List Op) (hc : CoveredAllRun v0 s ops)
     (hro : ∀ f, f ∈ s.files → fkey f = (e.entryBlock, e.entryOffset) → f.mode = .ReadOnly)
     (hn : NeverOpened h e.name s ops) : Untouched h e.name (e.entryBlock, e.entryOffset) s ops :=
   Lemmas.Survive.untouched_of_neverOpened hst ops s gh hK (fsCoveredRun_of_coveredAllRun v0 s ops hc) hro hn
@@ -390,12 +444,29 @@ theorem neverNames_def (N : Bytes) :
     (∀ d name ops, NeverNames N (.delete d name :: ops) ↔ Sfn.createFromStr name ≠ .ok N ∧ NeverNames N ops) :=
   ⟨Iff.rfl, fun _ _ _ _ => Iff.rfl, fun _ _ _ => Iff.rfl⟩
 
-/-- **`flushed_file_intact`** — part (a) for a file of ANY directory (root or sub-directory, FAT16 and FAT32): from a
-`Kept` state, along a covered history that never targets the file, at EVERY crash point `dk` — inside any call —: the
-blocks have 512 bytes, the slot still holds the serialised entry and decodes to the flushed entry, the chain is `cs`,
-the FAT entries of `cs` are unchanged, and the contents are unchanged for every length. -/
-theorem flushed_file_intact (v0 : FatVolume) (e : DirEntry) (cs : List Nat) (h : Nat) (s1 : Mgr) (gh1 : Ghost)
-    (hK : Kept v0 e cs h s1 gh1) (hst : Lemmas.Reopen.Storable v0.fatType e) (ops : List Op) (hc : CoveredAllRun v0 s1 ops)
+/-- The medium every crash point of the history leaves keeps the file of a `Kept` state: the state the call is issued
+in is `Kept`, and slot bytes, FAT entries and contents are those of the start. -/
+theorem kept_at_crash (v0 : FatVolume) (e : DirEntry) (cs : List Nat) (ys : List Slot) (h : Nat) (s1 : Mgr) (gh1 : Ghost)
+    (hK : Kept v0 e cs ys h s1 gh1) (hst : Lemmas.Reopen.Storable v0.fatType e) (ops : List Op) (hc : CoveredAllRun v0 s1 ops)
+    (hu : Untouched h e.name (e.entryBlock, e.entryOffset) s1 ops) (j : Nat) (op : Op) (hj : ops[j]? = some op) (k : Nat) :
+    ∃ ghj, Kept v0 e cs ys h (run s1 (ops.take j)).1 ghj ∧
+      Lemmas.Survive.SameFile v0 e cs ghj ys (run s1 (ops.take j)).1.dev.disk
+        (crashDisk (run s1 (ops.take j)).1.dev.disk (step (run s1 (ops.take j)).1 op).2.writes k) ∧
+      (∀ x, x ∈ cs → fatRaw v0 (run s1 (ops.take j)).1.dev.disk x = fatRaw v0 s1.dev.disk x) ∧
+      ∀ n, fileContent v0 (run s1 (ops.take j)).1.dev.disk cs n = fileContent v0 s1.dev.disk cs n := by
+  have hfc := fsCoveredRun_of_coveredAllRun v0 s1 ops hc
+  obtain ⟨ghj, hKj, hS⟩ := Lemmas.Survive.kept_history hst ops s1 gh1 hK hfc hu j op hj
+  obtain ⟨_, r2, r3⟩ := Lemmas.Survive.kept_run hst (ops.take j) s1 gh1 hK (Lemmas.Survive.fsCoveredRun_take v0 ops s1 hfc j)
+    (Lemmas.Survive.untouched_take h _ _ ops s1 hu j)
+  exact ⟨ghj, hKj, hS k, r2, r3⟩
+
+/-- **`flushed_file_intact`** — part (a) for a file of ANY directory (root or sub-directory, FAT16 and FAT32), after
+`close_file` or `flush_file`: from a `Kept` state, along a covered history that never targets the file, at EVERY crash
+point `dk` — inside any call —: the blocks have 512 bytes, the slot still holds the serialised entry and decodes to the
+flushed entry, the chain is `cs`, the FAT entries of `cs` are unchanged, and the contents are unchanged for every
+length. -/
+theorem flushed_file_intact (v0 : FatVolume) (e : DirEntry) (cs : List Nat) (ys : List Slot) (h : Nat) (s1 : Mgr) (gh1 : Ghost)
+    (hK : Kept v0 e cs ys h s1 gh1) (hst : Lemmas.Reopen.Storable v0.fatType e) (ops : List Op) (hc : CoveredAllRun v0 s1 ops)
     (hu : Untouched h e.name (e.entryBlock, e.entryOffset) s1 ops) (dk : Disk) (hk : HistCrash s1 ops dk) :
     BlocksOK dk ∧ slice (dk.get e.entryBlock) e.entryOffset 32 = e.serialize v0.fatType ∧
     Lemmas.Listing.decode v0.fatType (e.entryBlock, e.entryOffset, slice (dk.get e.entryBlock) e.entryOffset 32) =
@@ -403,358 +474,202 @@ theorem flushed_file_intact (v0 : FatVolume) (e : DirEntry) (cs : List Nat) (h :
     ((e.cluster < 2 ∧ cs = [] ∧ e.size = 0) ∨ Chain v0 dk e.cluster cs) ∧
     (∀ x, x ∈ cs → fatRaw v0 dk x = fatRaw v0 s1.dev.disk x) ∧
     ∀ n, fileContent v0 dk cs n = fileContent v0 s1.dev.disk cs n := by
-  obtain ⟨Ls, hR, hnn⟩ := notNamed_of_syntactic v0 e cs h s1 gh1 hK hst ops hc hu
-  obtain ⟨_, _, _, _, hreg, hal, _, hin⟩ := hK.facts hst
-  have hg : WFGeom v0 := hK.geom.symm.wfGeom hK.inv.med.geom
-  obtain ⟨hbk, hFk, hraw, hfc⟩ := Lemmas.Survive.flushed_at_crash hg hR hK.inv.med.blocksOK e cs hK.flushed hin hreg hal hnn dk hk
-  refine ⟨hbk, hFk.slot, ?_, hFk.chain, hraw, hfc⟩
-  rw [hFk.slot]
-  exact Lemmas.Reopen.decode_serialize v0.fatType e hst
+  obtain ⟨j, op, k, hj, rfl⟩ := (histCrash_iff s1 ops _).1 hk
+  obtain ⟨ghj, hKj, hS, r2, r3⟩ := kept_at_crash v0 e cs ys h s1 gh1 hK hst ops hc hu j op hj k
+  have hFk := hS.flushed hKj.flushed
+  refine ⟨hS.blocks, hFk.slot, ?_, hFk.chain, fun x hx => (hS.fat x hx).trans (r2 x hx), fun n => ?_⟩
+  · rw [hFk.slot]
+    exact Lemmas.Reopen.decode_serialize v0.fatType e hst
+  · rw [← r3 n]
+    unfold fileContent
+    rw [hS.bytes]
 
-/-- **`flushed_file_survives`** — the full statement for a file of the ROOT directory, FAT16 and FAT32.
+/-- What a fresh manager does on the medium `dk`: mount partition `idx`, open the root directory, `open_dir` along `names`
+(spellings of the names of the sub-directory entries `ys`), open the file by a spelling `name` of the stored name of `e`,
+learn the length `e.size`, and read `(fileContent v0 d0 cs e.size).take n` — exactly the contents the file had on the
+medium `d0` — writing nothing. -/
+def FreshReads (v0 : FatVolume) (e : DirEntry) (cs : List Nat) (ys : List Slot) (d0 : Disk) (idx : Nat) (dk : Disk) : Prop :=
+  ∀ (t0 : Mgr) (names : List (List Nat)) (name : List Nat), MgrOK t0 → t0.dev.disk = dk → t0.vols = [] → t0.dirs = [] →
+    t0.files = [] → 0 < t0.maxVols → ys.length + 1 ≤ t0.maxDirs → 0 < t0.maxFiles →
+    t0.nextId + ys.length + 2 < 4294967296 → Spells names ys → Sfn.createFromStr name = .ok e.name →
+    ∃ t1 t2 dh t3 t4, openRawVolume idx t0 = (.ok t0.nextId, t1) ∧
+      openRootDir t0.nextId t1 = (.ok (t0.nextId + 1), t2) ∧
+      openPath (t0.nextId + 1) names t2 = (.ok dh, t3) ∧
+      openFileInDir dh name .ReadOnly t3 = (.ok (t0.nextId + ys.length + 2), t4) ∧
+      t4.dev.disk = dk ∧ t4.dev.wlog = t0.dev.wlog ∧
+      fileLength (t0.nextId + ys.length + 2) t4 = (.ok e.size, t4) ∧
+      ∀ n, ∃ t5, read (t0.nextId + ys.length + 2) n t4 = (.ok ((fileContent v0 d0 cs e.size).take n), t5) ∧
+        t5.dev.disk = dk ∧ t5.dev.wlog = t0.dev.wlog
 
-`s1` satisfies the invariant of API histories with identical FAT copies and `RawOK` (`VolInvC`, `Props.C10Inv`); its
-medium shows the flushed file: entry `e` (storable), chain `cs` (`FlushedOn`); the file's slot is a file object of the
-root directory, and no open file at that slot has unflushed changes (after a successful `close_file` there is none:
-`close_establishes_kept`).  The medium of `s1` mounts as partition `idx` with the geometry of `v0`.  `ops` is ANY covered
-history from `s1` that never targets the file (`Untouched`: no `open_file_in_dir` of its name in the root directory in a
-truncating mode, no `delete_file_in_dir` of it, no `write` through a handle of it; see `untouched_of_never_opened` and
-`never_opened_of_never_names` for the syntactic forms).  Then at EVERY crash point `dk` of the history — the medium
-after any number of the block writes of any call —:
+theorem FreshReads.congr {v0 : FatVolume} {e : DirEntry} {cs : List Nat} {ys : List Slot} {d0 d0' : Disk} {idx : Nat} {dk : Disk}
+    (h : FreshReads v0 e cs ys d0 idx dk) (hc : ∀ n, fileContent v0 d0 cs n = fileContent v0 d0' cs n) :
+    FreshReads v0 e cs ys d0' idx dk := by
+  intro t0 names name a1 a2 a3 a4 a5 a6 a7 a8 a9 a10 a11
+  obtain ⟨t1, t2, dh, t3, t4, g1, g2, g3, g4, g5, g6, g7, g8⟩ := h t0 names name a1 a2 a3 a4 a5 a6 a7 a8 a9 a10 a11
+  refine ⟨t1, t2, dh, t3, t4, g1, g2, g3, g4, g5, g6, g7, fun n => ?_⟩
+  obtain ⟨t5, hr, hd5, hw5⟩ := g8 n
+  exact ⟨t5, by rw [← hc]; exact hr, hd5, hw5⟩
+
+/-- **`flushed_file_survives`** — the full statement: a file of ANY directory (root or sub-directory), FAT16 and FAT32,
+after `close_file` (`close_establishes_kept`) or `flush_file` with the handle left open (`flush_establishes_kept`).
+
+`s1` is a `Kept` state for the file (entry `e`, storable; chain `cs`) in directory `h`, reached from the root directory
+through the sub-directory entries `ys` (`[]` for a file of the root directory); its medium mounts as partition `idx` with
+the geometry of `v0`.  `ops` is ANY covered history from `s1` that never targets the file (`Untouched`: no
+`open_file_in_dir` of its name in its directory in a truncating mode, no `delete_file_in_dir` of it, no `write` through a
+handle of it — flushing or closing a handle of it again is allowed; see `untouched_of_never_opened` and
+`never_opened_of_never_names` for the syntactic forms).  Then at EVERY crash point `dk` of the history — the medium after
+any number of the block writes of any call —:
 
 (a) the blocks have 512 bytes, the slot holds the serialised entry, the chain is `cs`, and the contents are the flushed
     contents for every length;
-(b) the slot is the FIRST HIT for the file's name in the root directory of `dk` (the fixed root region on FAT16; on
-    FAT32 the chain `rc` of the root cluster on `dk`, which continues the chain it had);
-(c) `dk` mounts as partition `idx`, and ANY fresh manager on `dk` mounts, opens the root directory, opens the file by
-    any spelling `name` of its stored name, is told the length `e.size`, and reads
-    `(fileContent v0 s1.dev.disk cs e.size).take n` — exactly the flushed contents — writing nothing. -/
-theorem flushed_file_survives (v0 : FatVolume) (s1 : Mgr) (gh1 : Ghost) (hI : VolInvC s1 gh1) (h0 : SameGeom v0 gh1.vol)
-    (ops : List Op) (hc : CoveredAllRun v0 s1 ops) (e : DirEntry) (cs : List Nat) (hF : FlushedOn v0 s1.dev.disk e cs)
-    (hst : Lemmas.Reopen.Storable v0.fatType e)
-    (hobj : slotOf v0.fatType e ∈ objects 0 (dirSlots gh1.vol s1.dev.disk gh1.G 0))
-    (hplain : Attr.isDirectory e.attributes = false)
-    (hq : ∀ f, f ∈ s1.files → fkey f = (e.entryBlock, e.entryOffset) → f.dirty = false)
-    (hu : Untouched 0 e.name (e.entryBlock, e.entryOffset) s1 ops)
+(b) `dk` is crash-consistent for some record `ghk` of its tree (`CrashInv`), in which `ys` still lead from the root
+    directory to `h`, and the slot is the FIRST HIT for the file's name among the slots of directory `h` of `dk`;
+(c) `dk` mounts as partition `idx`, and ANY fresh manager on `dk` mounts, opens the root directory, opens the
+    sub-directories by any spellings of their names, opens the file by any spelling of its name, is told the length
+    `e.size`, and reads `(fileContent v0 s1.dev.disk cs e.size).take n` — exactly the flushed contents — writing nothing
+    (`FreshReads`). -/
+theorem flushed_file_survives (v0 : FatVolume) (s1 : Mgr) (gh1 : Ghost) (e : DirEntry) (cs : List Nat) (ys : List Slot) (h : Nat)
+    (hK : Kept v0 e cs ys h s1 gh1) (hst : Lemmas.Reopen.Storable v0.fatType e)
+    (ops : List Op) (hc : CoveredAllRun v0 s1 ops) (hu : Untouched h e.name (e.entryBlock, e.entryOffset) s1 ops)
     (idx : Nat) (vm : FatVolume) (hm : mountPure (s1.dev.disk.get 0) idx s1.dev.disk.get = .ok vm) (hsg : SameGeom vm v0)
     (dk : Disk) (hk : HistCrash s1 ops dk) :
     (BlocksOK dk ∧ slice (dk.get e.entryBlock) e.entryOffset 32 = e.serialize v0.fatType ∧
       ((e.cluster < 2 ∧ cs = [] ∧ e.size = 0) ∨ Chain v0 dk e.cluster cs) ∧
       ∀ n, fileContent v0 dk cs n = fileContent v0 s1.dev.disk cs n) ∧
-    (∃ rc, (v0.fatType = .fat16 → rc = []) ∧ (v0.fatType = .fat32 → Chain v0 dk v0.firstRootDirCluster rc) ∧
-      Lemmas.Reopen.FirstHit (Lemmas.Reopen.dirSlotsOf v0 dk 0xFFFFFFFC rc) e.name
+    (∃ ghk, CrashInv v0 dk ghk ∧ PathOn v0.fatType ghk.dirs (dirSlots v0 dk ghk.G) 0 ys h ∧
+      Lemmas.Reopen.FirstHit (dirSlots v0 dk ghk.G h) e.name
         (e.entryBlock, e.entryOffset, slice (dk.get e.entryBlock) e.entryOffset 32)) ∧
-    ∀ (t0 : Mgr) (name : List Nat), MgrOK t0 → t0.dev.disk = dk → t0.vols = [] → t0.dirs = [] → t0.files = [] →
-      0 < t0.maxVols → 0 < t0.maxDirs → 0 < t0.maxFiles → t0.nextId + 2 < 4294967296 →
-      Sfn.createFromStr name = .ok e.name →
-      ∃ t1 t2 t3, openRawVolume idx t0 = (.ok t0.nextId, t1) ∧
-        openRootDir t0.nextId t1 = (.ok (t0.nextId + 1), t2) ∧
-        openFileInDir (t0.nextId + 1) name .ReadOnly t2 = (.ok (t0.nextId + 2), t3) ∧
-        t3.dev.disk = dk ∧ t3.dev.wlog = t0.dev.wlog ∧
-        fileLength (t0.nextId + 2) t3 = (.ok e.size, t3) ∧
-        ∀ n, ∃ t4, read (t0.nextId + 2) n t3 = (.ok ((fileContent v0 s1.dev.disk cs e.size).take n), t4) ∧
-          t4.dev.disk = dk ∧ t4.dev.wlog = t0.dev.wlog := by
-  have hK : Kept v0 e cs 0 s1 gh1 :=
-    ⟨hI.inv, hI.mirror, h0, hF, ⟨Lemmas.VolTree.zero_mem_dirIds _, hobj, by rw [Lemmas.Survive.slotOf_isDir _ e hst]; exact hplain, hq⟩⟩
-  have hfc := fsCoveredRun_of_coveredAllRun v0 s1 ops hc
+    FreshReads v0 e cs ys s1.dev.disk idx dk := by
+  have hI : VolInvC s1 gh1 := ⟨hK.inv, hK.mirror, hK.raw⟩
+  have h0 := hK.geom
   obtain ⟨j, op, k, hj, rfl⟩ := (histCrash_iff s1 ops _).1 hk
-  obtain ⟨ghj, L, hKj, hwf, hall, hnn, hav⟩ := Lemmas.Survive.kept_history hst ops s1 gh1 hK hfc hu j op hj
+  obtain ⟨ghj, hKj, hS, _, hcj⟩ := kept_at_crash v0 e cs ys h s1 gh1 hK hst ops hc hu j op hj k
   obtain ⟨⟨ghk, hC⟩, _⟩ := C10Inv.history_crash_invariant v0 ops s1 gh1 hI h0 hc j op hj k
   obtain ⟨w, hmw, hsw⟩ := C10Inv.history_crash_mounts_from_start v0 ops s1 gh1 hI h0 hc j op hj k idx vm hm hsg
-  obtain ⟨r1, r2, _, r4, r5, r6⟩ := Lemmas.Survive.kept_crash hKj hst hwf hall hnn hav k hC idx w hmw hsw
-  -- the contents of the state the call is issued in are those of `s1`
-  obtain ⟨Ls, hR, hnnAll⟩ := notNamed_of_syntactic v0 e cs 0 s1 gh1 hK hst ops hc hu
-  obtain ⟨_, _, _, _, hreg, hal, _, hin⟩ := hK.facts hst
-  have hg : WFGeom v0 := h0.symm.wfGeom hI.inv.med.geom
-  obtain ⟨_, hcj⟩ := Lemmas.Survive.flushed_at_boundary hg hR hI.inv.med.blocksOK e cs hF hin hreg hal hnnAll j hKj.inv.med.blocksOK
-  refine ⟨⟨r1, r2.slot, r2.chain, fun n => (r4 n).trans (hcj n)⟩, ?_, ?_⟩
-  · refine ⟨Lemmas.VolMed.dirChain v0 ghk.G 0, ?_, ?_, ?_⟩
-    · intro h16
-      unfold Lemmas.VolMed.dirChain
-      rw [if_pos ⟨rfl, h16⟩]
-    · intro h32
-      have hf0 : ¬ Lemmas.VolMed.isFixedRoot v0 0 := fun h => by have := h.2; rw [h32] at this; cases this
-      obtain ⟨_, hCore⟩ := Lemmas.VolCrash.crashInv_iff.1 hC
-      obtain ⟨m2, d2⟩ := Lemmas.VolCrash.Fsck.dirChain_spec hCore (Lemmas.VolTree.zero_mem_dirIds _) hf0
-      have c2 := Lemmas.VolCrash.Fsck.lchain hCore m2
-      rw [Lemmas.VolTree.headD_of_head? d2] at c2
-      unfold Lemmas.VolMed.dirChain
-      rw [if_neg hf0]
-      have hd0 : Lemmas.VolMed.dirHead v0 0 = v0.firstRootDirCluster := by unfold Lemmas.VolMed.dirHead; rw [if_pos rfl]
-      rw [hd0] at c2 ⊢
-      exact c2
-    · rw [Lemmas.Survive.slotOf_of_flushed r2]; exact r5
-  · intro t0 name a1 a2 a3 a4 a5 a6 a7 a8 a9 a10
-    obtain ⟨t1, t2, t3, g1, g2, g3, g4, g5, g6, g7⟩ := r6 t0 name a1 a2 a3 a4 a5 a6 a7 a8 a9 a10
-    refine ⟨t1, t2, t3, g1, g2, g3, g4, g5, g6, fun n => ?_⟩
-    obtain ⟨t4, hr, hd4, hw4⟩ := g7 n
-    refine ⟨t4, ?_, hd4, hw4⟩
-    rw [← hcj]; exact hr
+  obtain ⟨r2, r4, rP, r5, r6⟩ := Lemmas.Survive.kept_crash hKj hst hS hC idx w hmw hsw
+  refine ⟨⟨hS.blocks, r2.slot, r2.chain, fun n => (r4 n).trans (hcj n)⟩, ⟨ghk, hC, rP, ?_⟩, ?_⟩
+  · rw [Lemmas.Survive.slotOf_of_flushed r2]; exact r5
+  · exact FreshReads.congr r6 hcj
 
-/-- **`closed_file_survives`** — the property from the call itself, with the purely syntactic criterion.
+/-- What `closed_file_survives` and `flushed_open_file_survives` conclude at a crash point `dk`: the slot holds the flushed
+entry `e`, the chain is `cs`, the contents are those of the medium `d0`, and any fresh manager reads them back
+(`FreshReads`). -/
+def ReadsBack (v0 : FatVolume) (e : DirEntry) (cs : List Nat) (ys : List Slot) (d0 : Disk) (idx : Nat) (dk : Disk) : Prop :=
+  (BlocksOK dk ∧ slice (dk.get e.entryBlock) e.entryOffset 32 = e.serialize v0.fatType ∧
+    ((e.cluster < 2 ∧ cs = [] ∧ e.size = 0) ∨ Chain v0 dk e.cluster cs) ∧
+    ∀ n, fileContent v0 dk cs n = fileContent v0 d0 cs n) ∧
+  FreshReads v0 e cs ys d0 idx dk
 
-`s` satisfies `VolInvC`; `hd` is the handle of the open file `f`, which was written to and sits in the ROOT directory;
-the medium of `s` mounts as partition `idx` with the geometry of `v0`.  Then `close_file hd` answers `Ok`, and for EVERY
-covered history `ops` after it whose list of calls contains no `open_file_in_dir` in a mode other than `ReadOnly` and no
-`delete_file_in_dir` of a spelling of the file's name (`NeverNames`), at EVERY crash point `dk` — the medium after any
-number of the block writes of any call of `ops` —: the slot holds the flushed entry, the chain is the file's chain,
-and ANY fresh manager on `dk` mounts, opens the root directory, opens the file by any spelling of its name, is told the
-length `f.entry.size` and reads exactly the contents the file had when it was closed
-(`fileContent v0 s.dev.disk cs f.entry.size`, `cs` the file's chain) — writing nothing. -/
-theorem closed_file_survives (v0 : FatVolume) (s : Mgr) (gh : Ghost) (hI : VolInvC s gh) (h0 : SameGeom v0 gh.vol)
-    (hd i : Nat) (f : FileInfo) (hidx : s.files.findIdx? (·.rawFile = hd) = some i) (hf : s.files[i]? = some f)
-    (hdirty : f.dirty = true)
-    (hroot : ∃ o, o ∈ objects 0 (dirSlots gh.vol s.dev.disk gh.G 0) ∧ spos o = fkey f)
-    (ops : List Op) (hc : CoveredAllRun v0 s (.closeFile hd :: ops)) (hn : NeverNames f.entry.name ops)
-    (idx : Nat) (vm : FatVolume) (hm : mountPure (s.dev.disk.get 0) idx s.dev.disk.get = .ok vm) (hsg : SameGeom vm v0) :
-    (step s (.closeFile hd)).2.result = .ok .unit ∧
-    ∀ dk, HistCrash (step s (.closeFile hd)).1 ops dk →
-      (BlocksOK dk ∧ slice (dk.get f.entry.entryBlock) f.entry.entryOffset 32 = f.entry.serialize v0.fatType ∧
-        ((f.entry.cluster < 2 ∧ chainOf gh.G f.entry.cluster = [] ∧ f.entry.size = 0) ∨
-          Chain v0 dk f.entry.cluster (chainOf gh.G f.entry.cluster)) ∧
-        ∀ n, fileContent v0 dk (chainOf gh.G f.entry.cluster) n = fileContent v0 s.dev.disk (chainOf gh.G f.entry.cluster) n) ∧
-      ∀ (t0 : Mgr) (name : List Nat), MgrOK t0 → t0.dev.disk = dk → t0.vols = [] → t0.dirs = [] → t0.files = [] →
-        0 < t0.maxVols → 0 < t0.maxDirs → 0 < t0.maxFiles → t0.nextId + 2 < 4294967296 →
-        Sfn.createFromStr name = .ok f.entry.name →
-        ∃ t1 t2 t3, openRawVolume idx t0 = (.ok t0.nextId, t1) ∧
-          openRootDir t0.nextId t1 = (.ok (t0.nextId + 1), t2) ∧
-          openFileInDir (t0.nextId + 1) name .ReadOnly t2 = (.ok (t0.nextId + 2), t3) ∧
-          t3.dev.disk = dk ∧ t3.dev.wlog = t0.dev.wlog ∧
-          fileLength (t0.nextId + 2) t3 = (.ok f.entry.size, t3) ∧
-          ∀ n, ∃ t4, read (t0.nextId + 2) n t3 =
-              (.ok ((fileContent v0 s.dev.disk (chainOf gh.G f.entry.cluster) f.entry.size).take n), t4) ∧
-            t4.dev.disk = dk ∧ t4.dev.wlog = t0.dev.wlog := by
-  have hM := Lemmas.VolMed.medX_of_med hI.inv.med
-  have hfm : f ∈ s.files := List.mem_of_getElem? hf
-  obtain ⟨hres, h, gh1, ⟨o, ho, hpo⟩, hh, hK1, hnone⟩ := Lemmas.Survive.close_kept hI.inv hI.mirror h0 hidx hf hdirty
-  obtain ⟨o0, ho0, hpo0⟩ := hroot
-  obtain ⟨rfl, _⟩ := Lemmas.AbsFs.slot_unique hM hh (Lemmas.VolTree.zero_mem_dirIds _) (Lemmas.VolMed.mem_of_mem_objects ho)
-    (Lemmas.VolMed.mem_of_mem_objects ho0) (hpo.trans hpo0.symm)
-  refine ⟨hres, ?_⟩
-  obtain ⟨hst, _, _, _, hplain, _⟩ := Lemmas.Survive.file_entry_facts hI.inv hfm
+/-- The common part of the two corollaries: from the `Kept` state a successful `flush_file` / `close_file` leaves. -/
+theorem reads_back_of_kept (v0 : FatVolume) (s : Mgr) (gh : Ghost) (hI : VolInvC s gh) (h0 : SameGeom v0 gh.vol)
+    (op : Op) (hcov : CoveredAll v0 s op) (f : FileInfo) (hfm : f ∈ s.files) (ys : List Slot)
+    (h : Nat) (gh1 : Ghost) (hK1 : Kept v0 f.entry (chainOf gh.G f.entry.cluster) ys h (step s op).1 gh1)
+    (hcont : ∀ n, fileContent gh.vol (step s op).1.dev.disk (chainOf gh.G f.entry.cluster) n =
+      fileContent gh.vol s.dev.disk (chainOf gh.G f.entry.cluster) n)
+    (ops : List Op) (hc : CoveredAllRun v0 (step s op).1 ops)
+    (hu : Untouched h f.entry.name (f.entry.entryBlock, f.entry.entryOffset) (step s op).1 ops)
+    (idx : Nat) (vm : FatVolume) (hm : mountPure (s.dev.disk.get 0) idx s.dev.disk.get = .ok vm) (hsg : SameGeom vm v0)
+    (dk : Disk) (hk : HistCrash (step s op).1 ops dk) :
+    ReadsBack v0 f.entry (chainOf gh.G f.entry.cluster) ys s.dev.disk idx dk := by
+  obtain ⟨hst, _⟩ := Lemmas.Survive.file_entry_facts hI.inv hfm
   have hst0 : Lemmas.Reopen.Storable v0.fatType f.entry := by rw [← h0.fatType]; exact hst
-  -- `VolInvC` after the close, for the ghost of `Kept`
-  obtain ⟨gh1', hIC1, hg1'⟩ := C10Inv.api_step_invariantC v0 s (.closeFile hd) gh hI h0 hc.1
-  have hIC : VolInvC (step s (.closeFile hd)).1 gh1 := by
-    refine ⟨hK1.inv, hK1.mirror, ?_⟩
-    have e1 : gh1.vol.fatType = gh1'.vol.fatType := hK1.geom.fatType.trans hg1'.fatType.symm
-    rw [e1]; exact hIC1.raw
-  -- the criterion
-  have hu := untouched_of_never_opened v0 f.entry _ 0 _ gh1 hK1 hst0 ops hc.2
-    (fun g hg hk => absurd hk (hnone g hg)) (never_opened_of_never_names 0 f.entry.name ops _ hn)
-  -- the medium after the close mounts
-  obtain ⟨w1, hw1, hsw1⟩ := C10Inv.history_mounts v0 [.closeFile hd] s gh hI h0 ⟨hc.1, trivial⟩ idx vm hm hsg
-  have hw1' : mountPure ((step s (.closeFile hd)).1.dev.disk.get 0) idx (step s (.closeFile hd)).1.dev.disk.get = .ok w1 := hw1
-  -- the contents the close leaves are those before it
-  obtain ⟨_, _, hcont⟩ := Lemmas.Survive.close_step_flushed hI.inv hidx hf hdirty
-  have hcont0 : ∀ n, fileContent v0 (step s (.closeFile hd)).1.dev.disk (chainOf gh.G f.entry.cluster) n =
+  -- the medium after the call mounts
+  obtain ⟨w1, hw1, hsw1⟩ := C10Inv.history_mounts v0 [op] s gh hI h0 ⟨hcov, trivial⟩ idx vm hm hsg
+  have hw1' : mountPure ((step s op).1.dev.disk.get 0) idx (step s op).1.dev.disk.get = .ok w1 := hw1
+  have hcont0 : ∀ n, fileContent v0 (step s op).1.dev.disk (chainOf gh.G f.entry.cluster) n =
       fileContent v0 s.dev.disk (chainOf gh.G f.entry.cluster) n := by
     intro n
     rw [← Lemmas.WriteRefines.sameGeom_fileContent h0, ← Lemmas.WriteRefines.sameGeom_fileContent h0]
     exact hcont n
-  intro dk hk
-  obtain ⟨⟨r1, r2, r3, r4⟩, _, r6⟩ := flushed_file_survives v0 _ gh1 hIC hK1.geom ops hc.2 f.entry _ hK1.flushed hst0 hK1.obj.mem
-    hplain hK1.obj.quiet hu idx w1 hw1' hsw1.symm dk hk
-  refine ⟨⟨r1, r2, r3, fun n => (r4 n).trans (hcont0 n)⟩, ?_⟩
-  intro t0 name a1 a2 a3 a4 a5 a6 a7 a8 a9 a10
-  obtain ⟨t1, t2, t3, g1, g2, g3, g4, g5, g6, g7⟩ := r6 t0 name a1 a2 a3 a4 a5 a6 a7 a8 a9 a10
-  refine ⟨t1, t2, t3, g1, g2, g3, g4, g5, g6, fun n => ?_⟩
-  obtain ⟨t4, hr, hd4, hw4⟩ := g7 n
-  refine ⟨t4, ?_, hd4, hw4⟩
-  rw [← hcont0]; exact hr
+  obtain ⟨⟨r1, r2, r3, r4⟩, _, r6⟩ := flushed_file_survives v0 _ gh1 f.entry _ ys h hK1 hst0 ops hc hu idx w1 hw1' hsw1.symm dk hk
+  exact ⟨⟨r1, r2, r3, fun n => (r4 n).trans (hcont0 n)⟩, FreshReads.congr r6 hcont0⟩
+
+/-- **`closed_file_survives`** — the property from the call itself, with the purely syntactic criterion, for a file of
+any directory.
+
+`s` satisfies `VolInvC`; `hd` is the handle of the open file `f`, which was written to; the file sits in directory `h`,
+to which the sub-directory entries `ys` lead from the root directory (`[]`: the file is in the root directory); the
+medium of `s` mounts as partition `idx` with the geometry of `v0`.  Then `close_file hd` answers `Ok`, and for EVERY
+covered history `ops` after it whose list of calls contains no `open_file_in_dir` in a mode other than `ReadOnly` and no
+`delete_file_in_dir` of a spelling of the file's name (`NeverNames`), at EVERY crash point `dk` — the medium after any
+number of the block writes of any call of `ops` —: `ReadsBack`: the slot holds the flushed entry, the chain is the
+file's chain, and any fresh manager reads exactly the contents the file had when it was closed. -/
+theorem closed_file_survives (v0 : FatVolume) (s : Mgr) (gh : Ghost) (hI : VolInvC s gh) (h0 : SameGeom v0 gh.vol)
+    (hd i : Nat) (f : FileInfo) (hidx : s.files.findIdx? (·.rawFile = hd) = some i) (hf : s.files[i]? = some f)
+    (hdirty : f.dirty = true) (h : Nat) (ys : List Slot)
+    (hdir : ∃ o, o ∈ objects h (dirSlots gh.vol s.dev.disk gh.G h) ∧ spos o = fkey f)
+    (hpath : PathOn gh.vol.fatType gh.dirs (dirSlots gh.vol s.dev.disk gh.G) 0 ys h)
+    (hnames : ∀ y, y ∈ ys → sName y ≠ Sfn.thisDir ∧ sName y ≠ Sfn.parentDir)
+    (ops : List Op) (hc : CoveredAllRun v0 s (.closeFile hd :: ops)) (hn : NeverNames f.entry.name ops)
+    (idx : Nat) (vm : FatVolume) (hm : mountPure (s.dev.disk.get 0) idx s.dev.disk.get = .ok vm) (hsg : SameGeom vm v0) :
+    (step s (.closeFile hd)).2.result = .ok .unit ∧
+    ∀ dk, HistCrash (step s (.closeFile hd)).1 ops dk →
+      ReadsBack v0 f.entry (chainOf gh.G f.entry.cluster) ys s.dev.disk idx dk := by
+  have hfm : f ∈ s.files := List.mem_of_getElem? hf
+  have hM := Lemmas.VolMed.medX_of_med hI.inv.med
+  obtain ⟨hres, h', ⟨o, hoo, hpo⟩, hh, hall⟩ := Lemmas.Survive.close_kept hI.inv hI.mirror hI.raw h0 hidx hf hdirty
+  obtain ⟨o0, ho0, hpo0⟩ := hdir
+  obtain ⟨rfl, _⟩ := Lemmas.AbsFs.slot_unique hM hh hpath.end_mem (Lemmas.VolMed.mem_of_mem_objects hoo)
+    (Lemmas.VolMed.mem_of_mem_objects ho0) (hpo.trans hpo0.symm)
+  obtain ⟨gh1, hK1, hnone⟩ := hall ys hpath hnames
+  refine ⟨hres, fun dk hk => ?_⟩
+  obtain ⟨hst, _⟩ := Lemmas.Survive.file_entry_facts hI.inv hfm
+  have hst0 : Lemmas.Reopen.Storable v0.fatType f.entry := by rw [← h0.fatType]; exact hst
+  obtain ⟨_, _, hcont⟩ := Lemmas.Survive.close_step_flushed hI.inv hidx hf hdirty
+  have hu := untouched_of_never_opened v0 f.entry _ ys h' _ gh1 hK1 hst0 ops hc.2
+    (fun g hg hkey => absurd hkey (hnone g hg)) (never_opened_of_never_names h' f.entry.name ops _ hn)
+  exact reads_back_of_kept v0 s gh hI h0 (.closeFile hd) hc.1 f hfm ys h' gh1 hK1 hcont ops hc.2 hu idx vm hm hsg dk hk
+
+/-- **`flushed_open_file_survives`** — the `flush_file` case, the handle left open, for a file of any directory.
+
+`s` satisfies `VolInvC`; `hd` is the handle of the open file `f`, which was written to and owns a cluster; the file sits
+in directory `h`, reached through `ys`; the medium of `s` mounts.  Then `flush_file hd` answers `Ok`, and for EVERY covered
+history `ops` after it that never targets the file (`Untouched`: no truncating `open_file_in_dir` of its name in its
+directory, no `delete_file_in_dir` of it, no `write` through a handle of it — reading, seeking, flushing again and
+closing are all allowed), at EVERY crash point: `ReadsBack` — any fresh manager reads exactly the contents the file had
+when it was flushed. -/
+theorem flushed_open_file_survives (v0 : FatVolume) (s : Mgr) (gh : Ghost) (hI : VolInvC s gh) (h0 : SameGeom v0 gh.vol)
+    (hd i : Nat) (f : FileInfo) (hidx : s.files.findIdx? (·.rawFile = hd) = some i) (hf : s.files[i]? = some f)
+    (hdirty : f.dirty = true) (hcl : f.entry.cluster ≠ 0) (h : Nat) (ys : List Slot)
+    (hdir : ∃ o, o ∈ objects h (dirSlots gh.vol s.dev.disk gh.G h) ∧ spos o = fkey f)
+    (hpath : PathOn gh.vol.fatType gh.dirs (dirSlots gh.vol s.dev.disk gh.G) 0 ys h)
+    (hnames : ∀ y, y ∈ ys → sName y ≠ Sfn.thisDir ∧ sName y ≠ Sfn.parentDir)
+    (ops : List Op) (hc : CoveredAllRun v0 s (.flush hd :: ops))
+    (hu : Untouched h f.entry.name (f.entry.entryBlock, f.entry.entryOffset) (step s (.flush hd)).1 ops)
+    (idx : Nat) (vm : FatVolume) (hm : mountPure (s.dev.disk.get 0) idx s.dev.disk.get = .ok vm) (hsg : SameGeom vm v0) :
+    (step s (.flush hd)).2.result = .ok .unit ∧
+    ∀ dk, HistCrash (step s (.flush hd)).1 ops dk →
+      ReadsBack v0 f.entry (chainOf gh.G f.entry.cluster) ys s.dev.disk idx dk := by
+  have hfm : f ∈ s.files := List.mem_of_getElem? hf
+  have hM := Lemmas.VolMed.medX_of_med hI.inv.med
+  obtain ⟨hres, h', ⟨o, hoo, hpo⟩, hh, hall⟩ := Lemmas.Survive.flush_kept hI.inv hI.mirror hI.raw h0 hidx hf hdirty hcl
+  obtain ⟨o0, ho0, hpo0⟩ := hdir
+  obtain ⟨rfl, _⟩ := Lemmas.AbsFs.slot_unique hM hh hpath.end_mem (Lemmas.VolMed.mem_of_mem_objects hoo)
+    (Lemmas.VolMed.mem_of_mem_objects ho0) (hpo.trans hpo0.symm)
+  obtain ⟨gh1, hK1⟩ := hall ys hpath hnames
+  refine ⟨hres, fun dk hk => ?_⟩
+  obtain ⟨_, _, hcont⟩ := Lemmas.Survive.flush_step_flushed hI.inv hidx hf hdirty
+  exact reads_back_of_kept v0 s gh hI h0 (.flush hd) hc.1 f hfm ys h' gh1 hK1 hcont ops hc.2 hu idx vm hm hsg dk hk
 
 /-- **`spec_reader_survives_syntactic`**: `spec_reader_survives` under the syntactic criterion — from a `Kept` state
 (file of any directory), along a covered history that never targets the file, at EVERY crash point the independent
 reader `Spec.Fs` sees the flushed file (slot fields, chain walk, file bytes); `ProperEnds`: no FAT32 entry of the
 file's chain is the reserved value 1. -/
-theorem spec_reader_survives_syntactic (v0 : FatVolume) (e : DirEntry) (cs : List Nat) (h : Nat) (s1 : Mgr) (gh1 : Ghost)
-    (hK : Kept v0 e cs h s1 gh1) (hst : Lemmas.Reopen.Storable v0.fatType e) (ops : List Op) (hc : CoveredAllRun v0 s1 ops)
+theorem spec_reader_survives_syntactic (v0 : FatVolume) (e : DirEntry) (cs : List Nat) (ys : List Slot) (h : Nat) (s1 : Mgr) (gh1 : Ghost)
+    (hK : Kept v0 e cs ys h s1 gh1) (hst : Lemmas.Reopen.Storable v0.fatType e) (ops : List Op) (hc : CoveredAllRun v0 s1 ops)
     (hu : Untouched h e.name (e.entryBlock, e.entryOffset) s1 ops)
     (g : Fs.Geom) (hgm : C02Reopen.GeomOf v0 g) (hp : C02Reopen.ProperEnds v0 s1.dev.disk cs)
     (dk : Disk) (hk : HistCrash s1 ops dk) (sl : Fs.Slot) (hsl : sl.bytes = slice (dk.get e.entryBlock) e.entryOffset 32) :
     Fs.nameOf sl = e.name ∧ Fs.attrOf sl = e.attributes ∧ Fs.clusterOf g sl = e.cluster ∧ Fs.sizeOf sl = e.size ∧
     (cs ≠ [] → Fs.chain g dk (Fs.clusterOf g sl) = .ok cs) ∧
     Fs.fileBytes g dk cs (Fs.sizeOf sl) = fileContent v0 s1.dev.disk cs e.size := by
-  obtain ⟨Ls, hR, hnn⟩ := notNamed_of_syntactic v0 e cs h s1 gh1 hK hst ops hc hu
-  obtain ⟨_, _, _, _, hreg, hal, _, hin⟩ := hK.facts hst
+  obtain ⟨hbk, hslot, _, hch, hraw, hfc⟩ := flushed_file_intact v0 e cs ys h s1 gh1 hK hst ops hc hu dk hk
+  obtain ⟨_, _, _, _, _, _, _, hin⟩ := hK.facts hst
   have hg : WFGeom v0 := hK.geom.symm.wfGeom hK.inv.med.geom
-  obtain ⟨hbk, hFk, hraw, hfc⟩ := Lemmas.Survive.flushed_at_crash hg hR hK.inv.med.blocksOK e cs hK.flushed hin hreg hal hnn dk hk
-  have := Lemmas.Survive.spec_reader_on v0 hg g hgm dk hbk e cs hst hFk hin
+  have := Lemmas.Survive.spec_reader_on v0 hg g hgm dk hbk e cs hst ⟨hslot, hch⟩ hin
     (fun x hx h32 => by rw [hraw x hx]; exact hp x hx h32) sl hsl
   rw [hfc] at this
   exact this
-
-/-! ### Non-vacuity -/
-
-namespace Example
-open Sdmmc.Props.C02Reopen.Example
-
-/-- The state of `Props.C02Reopen.Example`: the smallest FAT16 volume in partition 0 of a medium, the file `A.TXT` of the
-root directory open (handle 7) and dirty — 600 bytes in clusters 2 → 3 while the medium still holds the entry of the
-empty file.  Ghost: one chain, no sub-directory. -/
-def ghA : Ghost := { vol := vol, G := [[2, 3]], dirs := [] }
-
-theorem invA : VolInv mgr ghA := Lemmas.VolCheck.checkVolInv_sound mgr ghA (by decide +kernel)
-
-theorem mirrorA (d : Disk) : Mirror vol d := fun c _ b2 h => by
-  have : (none : Option Nat) = some b2 := h
-  cases this
-
-theorem invMA : VolInvM mgr ghA := ⟨invA, mirrorA _⟩
-
-/-- The state the close leaves. -/
-@[irreducible] def s1 : Mgr := (step mgr (.closeFile 7)).1
-
-theorem s1_def : s1 = (step mgr (.closeFile 7)).1 := by unfold s1; rfl
-
-theorem close_ok : (step mgr (.closeFile 7)).2.result = .ok .unit ∧ FlushedOn vol s1.dev.disk entry [2, 3] ∧
-    ∀ n, fileContent vol s1.dev.disk [2, 3] n = fileContent vol disk [2, 3] n :=
-  by rw [s1_def]; exact close_establishes mgr ghA invA 7 0 file handle_found rfl rfl
-
-theorem inv1 : ∃ gh1, VolInvM s1 gh1 ∧ SameGeom vol gh1.vol :=
-  by rw [s1_def]; exact C04Hist.step_invariantM vol mgr (.closeFile 7) ghA invMA (SameGeom.refl _) trivial
-
-theorem mount1 : mountPure (s1.dev.disk.get 0) 0 s1.dev.disk.get = .ok vol0 := by decide +kernel
-
-/-- Calls after the close that can only have the empty licence: a lookup, a listing, a query through the handle that is
-no longer open, opening the root directory again. -/
-def after : List Op := [.find 5 nameStr, .list 5, .length 7, .openRoot 3, .hasOpen]
-
-theorem after_covered : CoveredAllRun vol s1 after :=
-  C03Inv.coveredAllRun_of_coveredRun vol (by refine ⟨trivial, trivial, trivial, trivial, trivial, trivial⟩)
-
-theorem content_B : fileContent vol disk [2, 3] entry.size = B := by decide +kernel
-
-theorem storableA : Lemmas.Reopen.Storable vol.fatType entry := ⟨by decide, by decide, by decide, (by show entry.cluster < 65536; decide), by decide⟩
-
-/-- **The property on the example.**  After the successful close of `A.TXT`, at EVERY crash point of the history `after`
-the medium shows the flushed entry and the 600 flushed bytes `B`; and after every call of it a fresh manager mounts
-partition 0, opens the root directory, opens "A.TXT" and reads `B`. -/
-example : ∃ Ls, RunLicensed vol s1 after Ls ∧ (∀ L, L ∈ Ls → NotNamed vol L 18 0 [2, 3]) ∧
-    (∀ dk, HistCrash s1 after dk →
-      Lemmas.Listing.decode .fat16 (18, 0, slice (dk.get 18) 0 32) = Lemmas.Reopen.stored entry ∧
-      Chain vol dk 2 [2, 3] ∧ fileContent vol dk [2, 3] 600 = B) ∧
-    ∀ (j : Nat) (t0 : Mgr), MgrOK t0 → t0.dev.disk = (run s1 (after.take j)).1.dev.disk → t0.vols = [] → t0.dirs = [] →
-      t0.files = [] → 0 < t0.maxVols → 0 < t0.maxDirs → 0 < t0.maxFiles → t0.nextId + 2 < 4294967296 →
-      ∃ t1 t2 t3, openRawVolume 0 t0 = (.ok t0.nextId, t1) ∧ openRootDir t0.nextId t1 = (.ok (t0.nextId + 1), t2) ∧
-        openFileInDir (t0.nextId + 1) nameStr .ReadOnly t2 = (.ok (t0.nextId + 2), t3) ∧
-        fileLength (t0.nextId + 2) t3 = (.ok 600, t3) ∧
-        ∀ n, ∃ t4, read (t0.nextId + 2) n t3 = (.ok (B.take n), t4) := by
-  obtain ⟨gh1, hI1, hg1⟩ := inv1
-  obtain ⟨Ls, hR, himp⟩ := flushed_file_survives_partial vol s1 gh1 hI1 hg1 after after_covered entry [2, 3] close_ok.2.1
-    storableA (.inl (by decide)) (by decide) (by decide)
-  have hnn : ∀ L, L ∈ Ls → NotNamed vol L entry.entryBlock entry.entryOffset [2, 3] := by
-    intro L hL
-    obtain ⟨k, op, gh', hk, _, _, hl⟩ := Lemmas.WriteSetInv.runLicensed_nth hR L hL
-    generalize (run s1 (after.take k)).1 = t at hl
-    have hnone : L = Licence.none := by
-      match k, hk with
-      | 0, hk => cases hk; cases hl; rfl
-      | 1, hk => cases hk; cases hl; rfl
-      | 2, hk => cases hk; cases hl; rfl
-      | 3, hk => cases hk; cases hl; rfl
-      | 4, hk => cases hk; cases hl; rfl
-      | k + 5, hk => cases hk
-    rw [hnone]
-    exact ⟨(fun _ _ h => nomatch h), (fun _ h => nomatch h), (fun _ h => nomatch h), (fun _ h => nomatch h)⟩
-  obtain ⟨ha, hbc⟩ := himp hnn
-  have hB : fileContent vol s1.dev.disk [2, 3] 600 = B := by rw [close_ok.2.2 600]; exact content_B
-  refine ⟨Ls, hR, hnn, fun dk hk => ?_, fun j t0 a1 a2 a3 a4 a5 a6 a7 a8 a9 => ?_⟩
-  · obtain ⟨_, _, hdec, hch, _, hfc⟩ := ha dk hk
-    refine ⟨hdec, ?_, by rw [hfc 600]; exact hB⟩
-    rcases hch with ⟨h2, _⟩ | hch
-    · exact absurd h2 (by decide)
-    · exact hch
-  · obtain ⟨_, hrd⟩ := hbc rfl (by decide) (by decide) (by decide) (by decide) (by decide) (by decide) (by decide) (by decide)
-      0 vol0 mount1 ⟨_, _, (sameGeom : vol = _)⟩ j
-    obtain ⟨t1, t2, t3, g1, g2, g3, _, _, g6, g7⟩ := hrd t0 nameStr a1 a2 a3 a4 a5 a6 a7 a8 a9 (by decide)
-    refine ⟨t1, t2, t3, g1, g2, g3, g6, fun n => ?_⟩
-    obtain ⟨t4, hr, _, _⟩ := g7 n
-    exact ⟨t4, by rw [← hB]; exact hr⟩
-
-/-- The state of the example satisfies `VolInvC`: the on-disk slot of the open file names no cluster yet. -/
-theorem invCA : VolInvC mgr ghA := by
-  refine ⟨invA, mirrorA _, ?_⟩
-  intro f hf
-  have hf' : f = file := List.mem_singleton.1 hf
-  subst hf'
-  left
-  decide +kernel
-
-/-- The open file sits in the root directory (the ghost has no other directory). -/
-theorem rootA : ∃ o, o ∈ objects 0 (dirSlots ghA.vol mgr.dev.disk ghA.G 0) ∧ spos o = fkey file := by
-  obtain ⟨h, hh, o, ho, h1, h2, _⟩ := invA.med.tree.fileSlots file List.mem_cons_self
-  have h0 : h = 0 := by
-    have : h ∈ [0] := hh
-    exact List.mem_singleton.1 this
-  subst h0
-  exact ⟨o, ho, Prod.ext h1 h2⟩
-
-/-- A history after the close that writes a lot — it creates, fills and deletes another file, makes a directory, and
-reads `A.TXT` again through a read-only handle — but contains no `open_file_in_dir` of "A.TXT" in a writing mode and
-no `delete_file_in_dir` of it. -/
-def payload : Bytes := List.replicate 2000 0x55
-
-def busy : List Op :=
-  [.openFile 5 [0x42, 0x2E, 0x54, 0x58, 0x54] .ReadWriteCreate, .write 8 payload, .closeFile 8,
-   .mkdir 5 [0x44], .openFile 5 nameStr .ReadOnly, .read 9 100, .closeFile 9, .delete 5 [0x42, 0x2E, 0x54, 0x58, 0x54],
-   .closeVolume 3]
-
-theorem busy_names : NeverNames file.entry.name busy := by
-  refine ⟨.inr (by decide), ⟨.inl rfl, by decide, trivial⟩⟩
-
-theorem busy_covered : CoveredAllRun vol mgr (.closeFile 7 :: busy) :=
-  (C03All.coveredAllRun_iff_remountRun vol mgr _).2 (C03All.remountRun_of_no_openVolume vol mgr _ (by
-    intro op hop i e
-    subst e
-    simp [busy] at hop))
-
-/-- **The property on the example, full form**: `A.TXT` (600 bytes `B`) is closed; then, whatever `busy` does, at EVERY
-crash point of it — after any number of its block writes — a fresh manager mounts partition 0, opens the root directory,
-opens "A.TXT", is told 600 bytes and reads `B`. -/
-example : (step mgr (.closeFile 7)).2.result = .ok .unit ∧
-    ∀ dk, HistCrash (step mgr (.closeFile 7)).1 busy dk →
-      ∀ (t0 : Mgr), MgrOK t0 → t0.dev.disk = dk → t0.vols = [] → t0.dirs = [] → t0.files = [] →
-        0 < t0.maxVols → 0 < t0.maxDirs → 0 < t0.maxFiles → t0.nextId + 2 < 4294967296 →
-        ∃ t1 t2 t3, openRawVolume 0 t0 = (.ok t0.nextId, t1) ∧ openRootDir t0.nextId t1 = (.ok (t0.nextId + 1), t2) ∧
-          openFileInDir (t0.nextId + 1) nameStr .ReadOnly t2 = (.ok (t0.nextId + 2), t3) ∧
-          fileLength (t0.nextId + 2) t3 = (.ok 600, t3) ∧
-          ∀ n, ∃ t4, read (t0.nextId + 2) n t3 = (.ok (B.take n), t4) := by
-  obtain ⟨hres, hall⟩ := closed_file_survives vol mgr ghA invCA (SameGeom.refl _) 7 0 file handle_found rfl rfl rootA busy
-    busy_covered busy_names 0 vol0 mount_ok ⟨_, _, (sameGeom : vol = _)⟩
-  refine ⟨hres, fun dk hk t0 a1 a2 a3 a4 a5 a6 a7 a8 a9 => ?_⟩
-  obtain ⟨_, hrd⟩ := hall dk hk
-  obtain ⟨t1, t2, t3, g1, g2, g3, _, _, g6, g7⟩ := hrd t0 nameStr a1 a2 a3 a4 a5 a6 a7 a8 a9 (by decide)
-  refine ⟨t1, t2, t3, g1, g2, g3, g6, fun n => ?_⟩
-  obtain ⟨t4, hr, _, _⟩ := g7 n
-  refine ⟨t4, ?_⟩
-  have hB : fileContent vol mgr.dev.disk (chainOf ghA.G file.entry.cluster) file.entry.size = B := content_B
-  rw [← hB]; exact hr
-
-/-- The criterion is needed: a history that truncates the file is excluded by it — `NeverNames` fails. -/
-example : ¬ NeverNames file.entry.name [.openFile 5 nameStr .ReadWriteTruncate] := by
-  intro h
-  rcases h.1 with e | e
-  · cases e
-  · exact e (by decide)
-
-/-- The excluded point, evaluated: re-opening `A.TXT` with `ReadWriteTruncate` after the close (three block writes)
-leaves an entry of size 0 in the slot — the file IS modified, the criterion is needed (and says so: the call targets the
-file). -/
-example : (Lemmas.Listing.decode .fat16
-      (18, 0, slice (((step s1 (.openFile 5 nameStr .ReadWriteTruncate)).1.dev.disk).get 18) 0 32)).size = 0 ∧
-    (step s1 (.openFile 5 nameStr .ReadWriteTruncate)).2.writes.length = 3 := by
-  rw [s1_def]; decide +kernel
-
-example (s : Mgr) (hd : ∃ dir, dir ∈ s.dirs ∧ dir.rawDirectory = 5 ∧ dirIdOf dir.cluster = 0) :
-    Targets s 0 file.entry.name (18, 0) (.openFile 5 nameStr .ReadWriteTruncate) :=
-  ⟨.inl rfl, by decide, hd⟩
-
-/-- A call that does write — creating `B.TXT` in the same directory: at both crash points of its single block write
-the slot of `A.TXT` holds the flushed entry (evaluated). -/
-example : ∀ k, k ≤ 1 → slice ((crashDisk s1.dev.disk (step s1 (.openFile 5 [0x42, 0x2E, 0x54, 0x58, 0x54] .ReadWriteCreate)).2.writes k).get 18)
-    0 32 = entry.serialize .fat16 := by decide +kernel
-
-end Example
 
 end Sdmmc.Props.C09Hist
